@@ -248,7 +248,7 @@ theorem C06_duplicates_break_aggregate :
     (∃ ac, getAggregateCommit C06cxState C06dupPool = .ok ac ∧ ac.height = 5 ∧
       Bits.toBytes ac.bits = [0x06] ∧
       verifyAggregateCommit C06cxState ac = .reject .invalidCertificate) ∧
-    (∃ ac, getAggregateCommit C06cxState (C06cxPool.add ⟨105, 5, 1, sign 20 ⟨1, 105⟩, true⟩) = .ok ac ∧
+    (∃ ac, getAggregateCommit C06cxState { C06cxPool with nonGossiped := C06cxPool.nonGossiped ++ [⟨105, 5, 1, sign 20 ⟨1, 105⟩, true⟩] } = .ok ac ∧
       Bits.toBytes ac.bits = [0x0e] ∧ ac.sig = some (.agg [20, 30, 40, 20] ⟨1, 105⟩) ∧
       verifyAggregateCommit C06cxState ac = .reject .invalidCertificate) ∧
     (∃ ac, getAggregateCommit C06cxState C06cxPool = .ok ac ∧ verifyAggregateCommit C06cxState ac = .accept) := by
@@ -560,14 +560,22 @@ theorem C06_valid_commit_enters (st : State) (pool : Pool) (m : Incoming) (fin :
     simp only
     rw [hf]
     simp only [hsig, Bool.not_true, Bool.false_eq_true, if_false]
+    have hh' : pool.has m.commit = false := by simpa using hh
     refine ⟨trivial, ?_, fun _ => trivial⟩
-    simp [Pool.add, Pool.has, hasCommit]
+    have hadd : pool.add m.commit = { pool with nonGossiped := pool.nonGossiped ++ [m.commit] } := by
+      simp only [Pool.add, hh', Bool.false_eq_true, if_false]
+    rw [hadd]
+    simp [Pool.has, hasCommit]
 
 private theorem has_add_mono (pool : Pool) (d c : Commit) (h : pool.has c = true) : (pool.add d).has c = true := by
-  simp only [Pool.has, Pool.add, hasCommit, List.any_append, Bool.or_eq_true] at h ⊢
-  rcases h with h | h
-  · exact Or.inl h
-  · exact Or.inr (Or.inl h)
+  by_cases hd : pool.has d = true
+  · rw [LiskVerif.Cert.pool_add_of_has hd]; exact h
+  · have hd' : pool.has d = false := by simpa using hd
+    simp only [Pool.add, hd', Bool.false_eq_true, if_false]
+    simp only [Pool.has, hasCommit, List.any_append, Bool.or_eq_true] at h ⊢
+    rcases h with h | h
+    · exact Or.inl h
+    · exact Or.inr (Or.inl h)
 
 private theorem has_scvOne_mono (st : State) (pool : Pool) (m : Incoming) (c : Commit) (h : pool.has c = true) :
     (scvOne st pool m).1.has c = true := by
